@@ -168,6 +168,70 @@ def run(ctx):
     ctx.case("threads", "8x", nontrivial=True)
     if out != expect:
         ctx.fail("threads-differ", "parses running concurrently in threads differ from sequential ones", {})
+    # deterministic single-preemption schedules: thread A is stopped at its k-th entry into code of a module that defines
+    # a process-wide shared class (dispatch tables, entity trie: H5.Gen.Lifecycle.sharedClasses), thread B then runs a
+    # complete parse with its own parser, A resumes.  Every k up to a bound is explored: each is one legal interleaving.
+    import html5lib._utils as U
+    shared_files = {U.__file__.rstrip("c")}
+    try:
+        import html5lib._trie.py as TP
+        import html5lib._trie._base as TB_
+        shared_files |= {TP.__file__.rstrip("c"), TB_.__file__.rstrip("c")}
+    except Exception:
+        pass
+    pairs = [("<!DOCTYPE html><p>alpha<marker>inside-A</marker>tail-A<b>x</b>&amp;&notit;<table><tr><td>c</table>",
+              "<!DOCTYPE html><p>beta<other>inside-B</other>tail-B<i>y</i>&lt;&copy<select><option>o</select>"),
+             (gen.soup(rng, maxparts=10), gen.soup(rng, maxparts=10))]
+
+    def preempt(da, db, k):
+        res = {}
+        go_b, done_b = threading.Event(), threading.Event()
+        count = [0]
+
+        def tracer(frame, event, arg):
+            if event == "call" and frame.f_code.co_filename in shared_files:
+                count[0] += 1
+                if count[0] == k:
+                    go_b.set()
+                    done_b.wait(20)
+            return None
+
+        def run_a():
+            sys.settrace(tracer)
+            try:
+                res["a"] = result_of(fresh("etree"), ("parse", da, {}))
+            finally:
+                sys.settrace(None)
+                go_b.set()
+
+        def run_b():
+            go_b.wait(20)
+            try:
+                res["b"] = result_of(fresh("etree"), ("parse", db, {}))
+            finally:
+                done_b.set()
+        ta, tb = threading.Thread(target=run_a, daemon=True), threading.Thread(target=run_b, daemon=True)
+        ta.start(); tb.start(); ta.join(60); tb.join(60)
+        if ta.is_alive() or tb.is_alive():
+            return "did-not-finish", "did-not-finish", count[0]
+        return res.get("a"), res.get("b"), count[0]
+    for da, db in pairs:
+        ea, eb = result_of(fresh("etree"), ("parse", da, {})), result_of(fresh("etree"), ("parse", db, {}))
+        k, total = 1, None
+        limit = ctx.scale(120, 1500)
+        while k <= limit:
+            ra, rb, total = preempt(da, db, k)
+            ctx.case("preemption-schedule", "%s|%s|%d" % (da, db, k), nontrivial=True)
+            ctx.count("preemption-schedules")
+            if ra != ea or rb != eb:
+                ctx.fail("interleaving-changes-result", "a parse preempted by a parse of an independent parser object in another thread "
+                         "returns something else than alone", {"docA": da, "docB": db, "preempt_at_shared_call": k,
+                                                              "A": repr(ra)[:300], "A_alone": repr(ea)[:300],
+                                                              "B": repr(rb)[:300], "B_alone": repr(eb)[:300]})
+                break
+            if total is not None and k >= total:
+                break
+            k += 1
     if ctx.tier == "thorough":
         # fresh interpreter for the process-wide caches
         code = ("import sys,html5lib;from xml.etree import ElementTree as E;"
